@@ -103,3 +103,23 @@ example : (collectStr [[0x68], [0x69]] [[0x68, 0x69]]).flatMap Chunk.bytes = [2,
   decide
 
 end Postcard
+
+namespace Postcard
+
+/-- C02: an iterator whose length is not known up front (size hint not exact) handed to
+`collect_seq` / `collect_map` is refused, nothing is emitted. -/
+theorem collect_unknown_refused (lo : Nat) (hi : Option Nat) (h : hi ≠ some lo) :
+    collectHeader lo hi = .error .seqLengthUnknown := by
+  unfold collectHeader iteratorLenHint
+  cases hi with
+  | none => rfl
+  | some k =>
+    have : lo ≠ k := fun e => h (by rw [e])
+    simp [this, serSeqHeader]
+
+/-- … and an exact size hint is framed with exactly that count. -/
+theorem collect_exact (n : Nat) :
+    collectHeader n (some n) = .ok [.extend (encVarint 64 n)] := by
+  simp [collectHeader, iteratorLenHint, serSeqHeader]
+
+end Postcard
